@@ -2,8 +2,10 @@
 # sweep_seeds.sh: run every seeded change against the quick check of its property (and, for the two
 # that are only caught by a neighbouring property, against that one); result in seeded/SWEEP.txt.
 cd /verif
-out=seeded/SWEEP.txt; : > $out
-for d in seeded/C*-*/; do
+out=seeded/SWEEP.txt
+# with arguments: only those seeds, appended to the existing result
+if [ $# -gt 0 ]; then list=""; for a in "$@"; do list="$list seeded/$a/"; done; else list=$(ls -d seeded/C*-*/); : > $out; fi
+for d in $list; do
   s=$(basename $d); id=${s%%-*}
   r=$(tools/run_seed.sh $s quick 2>&1 | head -3 | tr '\n' ' ' | cut -c1-260)
   echo "$r" >> $out
